@@ -28,6 +28,7 @@ inductive St
   | zero (i n : Ex)                -- memset(array + i, 0, n elements)
   | call (f : Nat) (e : Ex)        -- a call of a function outside the model, with its argument: logged
   | scope (s : St)                 -- the body of an inlined function: `return` ends it
+  | while_ (c : Ex) (b : St)       -- while (c) b
   | ite (c : Ex) (t e : St)
   | seq (a b : St)
   | fatal (m : Nat)                -- YY_FATAL_ERROR: does not return
@@ -39,6 +40,7 @@ inductive Outcome
   | fatal (m : Nat)
   | oob                            -- an index outside the array: undefined behaviour in C
   | returned (v : Int)
+  | fuel                           -- a loop ran longer than the model allows (array length + 3 rounds)
 deriving Repr, DecidableEq, Inhabited
 
 structure State where
@@ -73,6 +75,19 @@ def Ex.eval (s : State) : Ex → Option Int
 def setVar (s : State) (x : Nat) (v : Int) : State :=
   { s with vars := fun y => if y = x then v else s.vars y }
 
+/-- `while`: at most `n` rounds -/
+def loop (cond : State → Option Int) (body : State → State × Outcome) : Nat → State → State × Outcome
+  | 0, s => (s, .fuel)
+  | n + 1, s =>
+    match cond s with
+    | none => (s, .oob)
+    | some v =>
+      if v != 0 then
+        match body s with
+        | (s', .normal) => loop cond body n s'
+        | r => r
+      else (s, .normal)
+
 def St.run : St → State → State × Outcome
   | .skip, s => (s, .normal)
   | .assign x e, s =>
@@ -99,6 +114,7 @@ def St.run : St → State → State × Outcome
     match e.eval s with
     | some v => ({ s with log := s.log ++ [(f, v)] }, .normal)
     | none => (s, .oob)
+  | .while_ c b, s => loop (fun s' => c.eval s') (fun s' => b.run s') (s.arr.length + 3) s
   | .scope b, s =>
     match b.run s with
     | (s', .returned _) => (s', .normal)
